@@ -49,6 +49,10 @@ def leaf_table():
   tab.append(('py:int', 12345678901234))
   tab.append(('py:float', 0.1))
   tab.append(('py:complex', 1.5 - 2j))
+  tab.append(('py:complex:inf', complex(1.0, float('inf'))))
+  tab.append(('py:complex:negzero', complex(-0.0, 2.0)))
+  tab.append(('py:float:negzero', -0.0))
+  tab.append(('py:float:inf', float('-inf')))
   tab.append(('py:str', 'héllo'))
   tab.append(('py:bytes', b'\x00\x01\xff'))
   tab.append(('py:bool', True))
@@ -59,7 +63,7 @@ def leaf_table():
 
 def leaf_repr(x):
   if isinstance(x, (str, bytes, bool, int, float, complex)) or x is None:
-    return ('py', type(x).__name__, x)
+    return ('py', type(x).__name__, repr(x))      # repr keeps -0.0, inf and nan apart
   a = np.asarray(x)
   if a.dtype.byteorder == '>':      # byte order is not part of the stored format: compare the values in native order
     a = a.astype(a.dtype.newbyteorder('='))
